@@ -141,8 +141,14 @@ def gen_file_tree(rng):
     returns (files, main key).  Include paths are relative to the including file's directory."""
     dirs = ["", "lib", "lib/sub", "other"]
     n = rng.choice([1, 2, 3, 4, 5])
-    keys = ["main.hera"] + ["%s%sf%d.hera" % (d, "/" if d else "", i) for i, d in
-                            enumerate(rng.choice(dirs) for _ in range(n))]
+    if rng.random() < 0.15:
+        # distinct files whose paths differ only in the case of letters (the file system is case-sensitive), and a
+        # file and a directory of the same spelling elsewhere (seed C16d: the cycle check folded case)
+        keys = ["main.hera"] + rng.sample(["lib/Util.hera", "lib/util.hera", "LIB/util.hera", "Lib/UTIL.hera", "util.hera",
+                                           "Util.hera", "lib/sub/util.hera"], min(n + 1, 5))
+    else:
+        keys = ["main.hera"] + ["%s%sf%d.hera" % (d, "/" if d else "", i) for i, d in
+                                enumerate(rng.choice(dirs) for _ in range(n))]
     files = {}
     opn = [0]
 
@@ -431,8 +437,11 @@ def planted_fault(rng):
     """-> dict(text, line, col, token, kind, frag, path_is_included)"""
     pre = layout_prefix(rng)
     tmpl, token, kind, frag, before = rng.choice(FAULTS)
-    indent = rng.choice(["", "  ", "\t", "\t\t ", "/* c */ ", "    ", "NOP()  /* a comment\n   that ends here */ ", "  /* x\n*/"])
+    indent = rng.choice(["", "  ", "\t", "\t\t ", "/* c */ ", "    ", "NOP()  /* a comment\n   that ends here */ ", "  /* x\n*/",
+                         "SET(R2, 1)\t", "NOP()\t\t", "x\t"[1:] + "NOP() \t "])
     line = tmpl.format(indent)          # may span two lines when the indentation holds a block comment
+    if rng.random() < 0.3 and ", " in line and token not in ('"abc',):
+        line = line.replace(", ", ",\t", 1) if rng.random() < 0.5 else line.replace(", ", ", \t ")   # tabs between operands
     lines = pre + before
     first = len(pre) + len(before) + 1   # the line number on which `line` starts
     if token == "toofar":
@@ -450,6 +459,9 @@ def planted_fault(rng):
     _, name_col = where(line.index(name, len(indent)))
     return {"text": "\n".join(lines) + "\n", "line": lineno, "col": col, "token": token, "kind": kind, "frag": frag,
             "name_col": name_col}
+
+
+PRINTED_PROBLEMS = []          # filled by diagnostics(): what is wrong with a diagnostic as printed
 
 
 def diagnostics(text, mode="", path=None):
@@ -473,15 +485,52 @@ def diagnostics(text, mode="", path=None):
             else:
                 q = loc.file_lines[loc.line - 1] if 0 < loc.line <= len(loc.file_lines) else None
                 out.append((sev, m, loc.line, loc.column, loc.path, q))
+                if q is not None and 1 <= loc.column <= len(q) + 1:
+                    bad = printed_caret_problem(m, loc)
+                    if bad:
+                        PRINTED_PROBLEMS.append(bad)
     return out
+
+
+def printed_caret_problem(m, loc):
+    """What the user sees: `print_message` quotes the line and puts a caret line under it.  Whatever the width of
+    a tab stop, the caret must stand under the reported column."""
+    import contextlib
+    import io
+    from hera.utils import print_message
+    err = io.StringIO()
+    try:
+        with contextlib.redirect_stderr(err):
+            print_message(m, loc=loc)
+    except BaseException as e:  # noqa
+        return "printing the diagnostic %r raised %s: %s" % (m, type(e).__name__, e)
+    lines = err.getvalue().split("\n")
+    carets = [i for i, l in enumerate(lines) if l.strip() == "^"]
+    if not carets:
+        return "the diagnostic %r is printed without a caret line: %r" % (m, err.getvalue()[-200:])
+    ci = carets[-1]
+    quoted, caret = lines[ci - 1], lines[ci]
+    src = loc.file_lines[loc.line - 1]
+    if quoted != "  " + src:
+        return "the diagnostic %r quotes %r, line %d is %r" % (m, quoted, loc.line, src)
+    for w in (8, 4, 3):
+        want = len(("  " + src[:loc.column - 1]).expandtabs(w))
+        got = caret.expandtabs(w).index("^")
+        if got != want:
+            return ("the caret printed for %r at line %d col %d stands at display column %d, the token starts at display "
+                    "column %d (tab stops every %d): line %r, caret line %r" % (m, loc.line, loc.column, got, want, w, quoted, caret))
+    return None
 
 
 def location_oracle(f, text_lines_of=None):
     """The planted fault must be reported at its token (or operation name), and every located
     diagnostic must name a line that exists, quote that very line and put the caret inside it."""
+    del PRINTED_PROBLEMS[:]
     d = diagnostics(f["text"])
     if isinstance(d, tuple):
         return "front end raised %s" % d[1]
+    if PRINTED_PROBLEMS:
+        return PRINTED_PROBLEMS[0]
     user_lines = f["text"].split("\n")
     hit = False
     for sev, m, line, col, path, q in d:
